@@ -309,9 +309,56 @@ def splitAbs (os : OS) (p : Bytes) : Option (Bytes × Bytes) :=
   let i : Int := if (p.length : Int) - 1 - tailLen < (l : Int) - 1 then (l : Int) - 1 else (p.length : Int) - 1 - tailLen
   if i < 0 then none else some (p.take i.toNat, p.drop (i.toNat + 1))
 
-def asciiFoldEq (a b : Bytes) : Bool := a.map toUpper == b.map toUpper
+def runeError : Nat := 0xFFFD
 
-/-- sameWord (strings.EqualFold is modelled on ASCII letters only) -/
+def isCont (b : UInt8) : Bool := 0x80 ≤ b && b ≤ 0xBF
+
+/-- utf8.DecodeRuneInString: (rune, size) -/
+def decodeRune (s : Bytes) : Nat × Nat :=
+  match s with
+  | [] => (runeError, 0)
+  | b0 :: r =>
+    if b0 < 0x80 then (b0.toNat, 1)
+    else if 0xC2 ≤ b0 && b0 ≤ 0xDF then
+      match r with
+      | b1 :: _ => if isCont b1 then ((b0.toNat % 32) * 64 + b1.toNat % 64, 2) else (runeError, 1)
+      | _ => (runeError, 1)
+    else if 0xE0 ≤ b0 && b0 ≤ 0xEF then
+      match r with
+      | b1 :: b2 :: _ =>
+        let lo : UInt8 := if b0 == 0xE0 then 0xA0 else 0x80
+        let hi : UInt8 := if b0 == 0xED then 0x9F else 0xBF
+        if lo ≤ b1 && b1 ≤ hi && isCont b2 then
+          ((b0.toNat % 16) * 4096 + (b1.toNat % 64) * 64 + b2.toNat % 64, 3)
+        else (runeError, 1)
+      | _ => (runeError, 1)
+    else if 0xF0 ≤ b0 && b0 ≤ 0xF4 then
+      match r with
+      | b1 :: b2 :: b3 :: _ =>
+        let lo : UInt8 := if b0 == 0xF0 then 0x90 else 0x80
+        let hi : UInt8 := if b0 == 0xF4 then 0x8F else 0xBF
+        if lo ≤ b1 && b1 ≤ hi && isCont b2 && isCont b3 then
+          ((b0.toNat % 8) * 262144 + (b1.toNat % 64) * 4096 + (b2.toNat % 64) * 64 + b3.toNat % 64, 4)
+        else (runeError, 1)
+      | _ => (runeError, 1)
+    else (runeError, 1)
+
+/-- the runes of a byte string as utf8 decoding delivers them (an invalid byte is one RuneError) -/
+def runesOf : Nat → Bytes → List Nat
+  | 0, _ => []
+  | _, [] => []
+  | fuel + 1, s =>
+    let (r, n) := decodeRune s
+    r :: runesOf fuel (s.drop (max n 1))
+
+def foldRune (r : Nat) : Nat := if 97 ≤ r && r ≤ 122 then r - 32 else r
+
+/-- strings.EqualFold: rune by rune (so that any two invalid bytes are "equal": both decode to RuneError), with simple
+    case folding modelled on ASCII letters only -/
+def asciiFoldEq (a b : Bytes) : Bool :=
+  (runesOf a.length a).map foldRune == (runesOf b.length b).map foldRune
+
+/-- sameWord (strings.EqualFold: rune-wise, case folding on ASCII letters only) -/
 def sameWord (os : OS) (a b : Bytes) : Bool :=
   match os with
   | .linux => a == b
@@ -363,40 +410,6 @@ def rel (os : OS) (basepath targpath : Bytes) : RelOut :=
     else .ok tRest
 
 /-! ### Match -/
-
-def runeError : Nat := 0xFFFD
-
-def isCont (b : UInt8) : Bool := 0x80 ≤ b && b ≤ 0xBF
-
-/-- utf8.DecodeRuneInString: (rune, size) -/
-def decodeRune (s : Bytes) : Nat × Nat :=
-  match s with
-  | [] => (runeError, 0)
-  | b0 :: r =>
-    if b0 < 0x80 then (b0.toNat, 1)
-    else if 0xC2 ≤ b0 && b0 ≤ 0xDF then
-      match r with
-      | b1 :: _ => if isCont b1 then ((b0.toNat % 32) * 64 + b1.toNat % 64, 2) else (runeError, 1)
-      | _ => (runeError, 1)
-    else if 0xE0 ≤ b0 && b0 ≤ 0xEF then
-      match r with
-      | b1 :: b2 :: _ =>
-        let lo : UInt8 := if b0 == 0xE0 then 0xA0 else 0x80
-        let hi : UInt8 := if b0 == 0xED then 0x9F else 0xBF
-        if lo ≤ b1 && b1 ≤ hi && isCont b2 then
-          ((b0.toNat % 16) * 4096 + (b1.toNat % 64) * 64 + b2.toNat % 64, 3)
-        else (runeError, 1)
-      | _ => (runeError, 1)
-    else if 0xF0 ≤ b0 && b0 ≤ 0xF4 then
-      match r with
-      | b1 :: b2 :: b3 :: _ =>
-        let lo : UInt8 := if b0 == 0xF0 then 0x90 else 0x80
-        let hi : UInt8 := if b0 == 0xF4 then 0x8F else 0xBF
-        if lo ≤ b1 && b1 ≤ hi && isCont b2 && isCont b3 then
-          ((b0.toNat % 8) * 262144 + (b1.toNat % 64) * 4096 + (b2.toNat % 64) * 64 + b3.toNat % 64, 4)
-        else (runeError, 1)
-      | _ => (runeError, 1)
-    else (runeError, 1)
 
 inductive MOut (α : Type) | ok (a : α) | badPattern | panic
   deriving DecidableEq, Repr
